@@ -13,6 +13,7 @@ using `bfs()` below.
 """
 from __future__ import annotations
 
+import gc
 import importlib
 import json
 import multiprocessing as mp
@@ -64,6 +65,8 @@ def explore_item(execute: Callable[[Any, List[int]], ExecResult], params: Any, b
             res["cap_pending"] = len(stack)
             break
         prefix, used = stack.pop()
+        if res["executions"] % 64 == 63:
+            gc.collect()  # automatic collection is off in workers; worlds are cyclic garbage
         r = execute(params, prefix)
         _account(res, r, params, [p.choice for p in r.trace], first)
         if first:
@@ -146,6 +149,8 @@ def bfs(run: Callable[[List[Any]], Tuple[Any, List[dict], List[Any]]], depth: in
                 break
             for op in ops:
                 h2 = hist + [op]
+                if res["executions"] % 64 == 63:
+                    gc.collect()
                 c2, v2, ops2 = run(h2)
                 res["executions"] += 1
                 transitions += 1
@@ -243,6 +248,7 @@ def _merge_all(total: dict, results: Any) -> None:
             total["harness_errors"].append(res["harness_error"])
             continue
         total["items_done"] += 1
+        total.setdefault("top", []).append((res.get("executions", 0), repr(res.get("params"))[:120]))
         if res.get("capped"):
             total["items_capped"] += 1
             total["capped"] = True
@@ -421,6 +427,9 @@ def main_check(modname: str, tier: str, seed: int, jobs: int, budget_s: float) -
         if err:
             print(f"HARNESS-ERROR property={prop}: evidence does not validate: {err}")
             return 2
+    if os.environ.get("MC_TOP"):
+        for n, p in sorted(total.get("top", []), reverse=True)[:8]:
+            print(f"  top item: {n} executions  {p}")
     cap = " (capped: budget hit)" if total["capped"] else ""
     print(f"{prop} {tier}: scenarios={total['items']} executions={total['executions']} "
           f"distinct_outcomes={len(total['digests'])} nontrivial={len(total['nontrivial'])} "
